@@ -731,6 +731,7 @@ def reverse_universes() -> List[Tuple[Grammar, str, bool]]:
         (("a", "a", 1), ("a",)),  # X -> a a X | a
         ((1, "a"), ("b",)),      # X -> X a | b   (left recursive; index patched below)
         (("a",), ("b", "b")),    # finite
+        (("a", "a", "a", 1), ("a", "a", "a")),  # minimum size 3: quotient rules with shifts of magnitude 3
     ]
 
     def nt(shape, idx):
